@@ -31,13 +31,13 @@ import (
 type encKind struct {
 	name string
 	kind client.FieldKind
-	pool func() []any                // edge values (no nil)
-	rnd  func(r *rand.Rand) any      // random value
+	pool func() []any           // edge values (no nil)
+	rnd  func(r *rand.Rand) any // random value
 	nv   func(v any) client.NormalValue
-	cmp  func(a, b any) int          // value order
+	cmp  func(a, b any) int // value order
 	back func(nv client.NormalValue) (any, bool)
-	eq   func(a, b any) bool         // equality of a value and its decoded image
-	cls  func(v any) string          // value class (coverage)
+	eq   func(a, b any) bool // equality of a value and its decoded image
+	cls  func(v any) string  // value class (coverage)
 }
 
 type jsonVal struct {
@@ -291,8 +291,8 @@ var encKinds = []encKind{
 			k := uint(8 * (1 + r.IntN(7)))
 			return (int64(1)<<k)*int64(1-2*r.IntN(2)) + int64(r.IntN(5)) - 2
 		},
-		nv:  func(v any) client.NormalValue { return client.NewNormalInt(v.(int64)) },
-		cmp: cmpInt,
+		nv:   func(v any) client.NormalValue { return client.NewNormalInt(v.(int64)) },
+		cmp:  cmpInt,
 		back: func(nv client.NormalValue) (any, bool) { return nv.Int() },
 		eq:   func(a, b any) bool { return a == b },
 		cls: func(v any) string {
@@ -319,8 +319,8 @@ var encKinds = []encKind{
 				}
 			}
 		},
-		nv:  func(v any) client.NormalValue { return client.NewNormalFloat64(v.(float64)) },
-		cmp: cmpFloat,
+		nv:   func(v any) client.NormalValue { return client.NewNormalFloat64(v.(float64)) },
+		cmp:  cmpFloat,
 		back: func(nv client.NormalValue) (any, bool) { return nv.Float64() },
 		eq:   func(a, b any) bool { return a.(float64) == b.(float64) },
 		cls: func(v any) string {
@@ -344,8 +344,8 @@ var encKinds = []encKind{
 				}
 			}
 		},
-		nv:  func(v any) client.NormalValue { return client.NewNormalFloat32(v.(float32)) },
-		cmp: func(a, b any) int { return cmpO(a.(float32), b.(float32)) },
+		nv:   func(v any) client.NormalValue { return client.NewNormalFloat32(v.(float32)) },
+		cmp:  func(a, b any) int { return cmpO(a.(float32), b.(float32)) },
 		back: func(nv client.NormalValue) (any, bool) { return nv.Float32() },
 		eq:   func(a, b any) bool { return a.(float32) == b.(float32) },
 		cls: func(v any) string {
@@ -389,8 +389,8 @@ var encKinds = []encKind{
 			}
 			return string(b)
 		},
-		nv:  func(v any) client.NormalValue { return client.NewNormalString(v.(string)) },
-		cmp: func(a, b any) int { return cmpO(a.(string), b.(string)) },
+		nv:   func(v any) client.NormalValue { return client.NewNormalString(v.(string)) },
+		cmp:  func(a, b any) int { return cmpO(a.(string), b.(string)) },
 		back: func(nv client.NormalValue) (any, bool) { return nv.String() },
 		eq:   func(a, b any) bool { return a == b },
 		cls: func(v any) string {
@@ -449,8 +449,8 @@ var encKinds = []encKind{
 			}
 			return time.Unix(int64(r.Uint64()>>uint(24+r.IntN(30)))*int64(1-2*r.IntN(2)), int64(r.IntN(1_000_000_000))).UTC()
 		},
-		nv:  func(v any) client.NormalValue { return client.NewNormalTime(v.(time.Time)) },
-		cmp: func(a, b any) int { return a.(time.Time).Compare(b.(time.Time)) },
+		nv:   func(v any) client.NormalValue { return client.NewNormalTime(v.(time.Time)) },
+		cmp:  func(a, b any) int { return a.(time.Time).Compare(b.(time.Time)) },
 		back: func(nv client.NormalValue) (any, bool) { return nv.Time() },
 		eq:   func(a, b any) bool { return a.(time.Time).Equal(b.(time.Time)) },
 		cls: func(v any) string {
